@@ -2,6 +2,7 @@ package harness
 
 import (
 	"bytes"
+	"context"
 	"encoding/json"
 	"errors"
 	"fmt"
@@ -94,7 +95,9 @@ func genC18(t *simrt.Tape, tier string) Scenario {
 		maxSteps = 14
 	}
 	n := 1 + t.Choose(maxSteps)
-	verbs := []string{"Get", "Head", "Options", "Delete", "Post", "Put", "Patch", "API", "APIDelete", "APIPost"}
+	// (the two Ctx verbs: DoNewRequest with a caller-supplied context that is already cancelled, resp. gets cancelled
+	// while the first interceptor runs - the deadline of the caller passing mid-chain; only an interceptor's error aborts the chain)
+	verbs := []string{"Get", "Head", "Options", "Delete", "Post", "Put", "Patch", "API", "APIDelete", "APIPost", "CtxCancelled", "CtxCancelledMidChain"}
 	for i := 0; i < n; i++ {
 		switch t.ChooseW([]int{4, 2, 1, 2, 6, 1}) {
 		case 5:
@@ -175,6 +178,7 @@ func (sc *c18Scenario) Run(s *simrt.Sim) {
 	var netErr error
 	redirects := 0
 	calls := 0
+	var cancelMid func()
 	errs := make([]error, sc.NIcs)
 	ics := make([]*network.Interceptor, sc.NIcs)
 	for i := range ics {
@@ -193,6 +197,9 @@ func (sc *c18Scenario) Run(s *simrt.Sim) {
 			req.Header.Add(fmt.Sprintf("X-Ic-%d", i), "set")
 			my := calls
 			calls++
+			if my == 0 && cancelMid != nil {
+				cancelMid()
+			}
 			if my == failAt {
 				return errs[i]
 			}
@@ -294,6 +301,16 @@ func (sc *c18Scenario) Run(s *simrt.Sim) {
 					rerr = ar.Err
 				}
 				return nil, nil
+			case "CtxCancelled", "CtxCancelledMidChain":
+				ctx, cancel := context.WithCancel(context.Background())
+				defer cancel()
+				if verb == "CtxCancelled" {
+					cancel()
+				} else {
+					cancelMid = cancel
+					defer func() { cancelMid = nil }()
+				}
+				r = sh.DoNewRequest(ctx, nil, http.MethodGet, url)
 			case "APIDelete", "APIPost":
 				type resp struct {
 					V int `json:"v"`
@@ -384,7 +401,7 @@ func (sc *c18Scenario) Run(s *simrt.Sim) {
 				failAt = fp
 				netErr = nil
 				if fp == len(model)+1 {
-					if st.Verb == "Post" || st.Verb == "Put" || st.Verb == "Patch" || st.Verb == "APIPost" {
+					if st.Verb == "Post" || st.Verb == "Put" || st.Verb == "Patch" || st.Verb == "APIPost" || strings.HasPrefix(st.Verb, "Ctx") {
 						continue // a 307 re-sends the body, which needs GetBody: not the subject here
 					}
 					failAt = -1
@@ -479,7 +496,7 @@ func (sc *c18Scenario) Run(s *simrt.Sim) {
 					} else if len(log) > 0 && !strings.HasPrefix(log[len(log)-1], "transport") {
 						add("transport", "transport-not-last", ctx)
 					}
-					if rerr != nil {
+					if rerr != nil && !strings.HasPrefix(st.Verb, "Ctx") {
 						add("error", "unexpected-error", ctx+fmt.Sprintf(": Err=%v", rerr))
 					}
 					for _, i := range model {
